@@ -2,7 +2,7 @@
    Statements only; proofs in Proofs/C08.v.
    Suits: clubs = 0, diamonds = 1, hearts = 2, spades = 3; [next_suit_spec]: S -> H -> D -> C -> S. *)
 From CKC Require Import Base.Prelude Spec.Layout.
-From CKC Require Import Model.Card Model.Hands Model.Five Proofs.C01 Proofs.TableFacts Proofs.C08.
+From CKC Require Import Model.Card Model.Hands Model.Five Proofs.FreeFacts Proofs.C08.
 Open Scope N_scope.
 
 Theorem C08_card : forall r s, r < 13 -> s < 4 -> shift_suit (layout r s) = layout r (next_suit_spec s).
@@ -28,6 +28,12 @@ Theorem C08_relabel_invariant : forall chk f n ws,
   exists v, hand_rank_value chk ws = Ok v /\ hand_rank_value chk (map (relabel f) ws) = Ok v.
 Proof. exact relabel_value. Qed.
 
+(* stronger: the SAME outcome, whatever the lookup tables contain *)
+Theorem C08_relabel_same : forall chk f n ws,
+  suit_bijection f -> (n = 5 \/ n = 6 \/ n = 7)%nat -> HandN n ws ->
+  hand_rank_value chk (map (relabel f) ws) = hand_rank_value chk ws.
+Proof. exact relabel_same. Qed.
+
 (* in particular by shifting *)
 Theorem C08_shift_invariant : forall chk n ws,
   (n = 5 \/ n = 6 \/ n = 7)%nat -> HandN n ws ->
@@ -47,5 +53,6 @@ Print Assumptions C08_cycle.
 Print Assumptions C08_blank.
 Print Assumptions C08_slots.
 Print Assumptions C08_relabel_invariant.
+Print Assumptions C08_relabel_same.
 Print Assumptions C08_shift_invariant.
 Print Assumptions C08_shift_is_relabel.
